@@ -42,6 +42,7 @@ type Stack struct {
 	Svc    *service.Services
 	Engine *gin.Engine
 	Path   string
+	Peers  map[*peerpkg.Peer]*peerpkg.SyncState // the map shared by NetworkService and the sync manager
 	log    zerolog.Logger
 	// decorate, when set, wraps the header repository before the services are built (fault injection / scheduling)
 	Decorate func(repository.Headers) repository.Headers
@@ -88,6 +89,7 @@ func (s *Stack) Open() error {
 		Webhooks: sqlrepository.NewWebhooksRepository(store),
 	}
 	peers := make(map[*peerpkg.Peer]*peerpkg.SyncState)
+	s.Peers = peers
 	s.Svc = service.NewServices(service.Dept{
 		Repositories: s.Repo,
 		Peers:        peers,
@@ -105,6 +107,9 @@ func (s *Stack) Open() error {
 	gin.DefaultErrorWriter = io.Discard
 	return nil
 }
+
+// Log returns the stack's (silent) logger.
+func (s *Stack) Log() *zerolog.Logger { return &s.log }
 
 // Close closes the database handle (the file stays).
 func (s *Stack) Close() {
